@@ -6,6 +6,7 @@ import (
 	"sort"
 	"strconv"
 	"strings"
+	"sync"
 
 	"github.com/samaritan-proxy/samaritan/host"
 	"github.com/samaritan-proxy/samaritan/proc/verifexport"
@@ -17,6 +18,9 @@ import (
 //
 //	c15.set <op>…   a<objs> Add, r<objs> Remove, p<objs> ReplaceAll ("p-" = empty), h<id> MarkHostHealthy, u<id> MarkHostUnhealthy
 //	                <objs> = <id>.<addr><m|b>[,…]; an id seen before denotes the same object
+//	                H<id> / U<id> start MarkHostHealthy / MarkHostUnhealthy in its own goroutine and park it between the flag
+//	                CAS and the lock (pause point set.mark.flagged): "c" when parked, "f" when the CAS failed;
+//	                Y<id> lets the parked mark of <id> take the lock and finish: its result
 //	   -> after every op: <t|f for marks>H[addr#id,…]  (Healthy()), at the end X[ids whose removal latch is closed]
 //	c15.hc <rise> <fall> <outcomes>   one member host, scripted check outcomes (1 = ok, 0 = failed)
 //	   -> per outcome h (healthy and listed) / u (unhealthy and not listed) / ! (flag and listing disagree)
@@ -27,6 +31,7 @@ func init() { props["C15"] = func() hx.Prop { return c15{} } }
 func (c15) Rule() string {
 	return "op sequences on the real host.Set through its public API: adds (fresh objects, re-adds of stored objects, the same address with another type, duplicates within one call), " +
 		"removals by stored object and by a fresh equal object (as the controller does), replacements, health marks incl. marks for removed/replaced objects; " +
+		"every third history runs marks in two halves (goroutine parked between the flag CAS and the lock by a pause point) with other operations and other objects' marks in between; " +
 		"health monitor with scripted check outcomes and thresholds 0..4. Non-trivial = history contains a type change, a duplicate address, or a mark for a non-member; distinct by op line"
 }
 
@@ -95,6 +100,36 @@ func (c15) Exec(op string) string {
 			t := &objTable{objs: map[int]*host.Host{}, ids: map[*host.Host]int{}}
 			s := host.NewSet()
 			var outs []string
+			// marks parked between their two halves
+			type parkedMark struct {
+				reached, release chan struct{}
+				result           chan bool
+			}
+			var pmu sync.Mutex
+			parked := map[*host.Host]*parkedMark{}
+			if strings.ContainsAny(strings.Join(f[1:], " "), "HUY") {
+				host.VerifSetPause(func(point string, obj interface{}) {
+					h, ok := obj.(*host.Host)
+					if !ok || point != "set.mark.flagged" {
+						return
+					}
+					pmu.Lock()
+					p := parked[h]
+					pmu.Unlock()
+					if p != nil {
+						close(p.reached)
+						<-p.release
+					}
+				})
+				defer host.VerifSetPause(nil)
+			}
+			defer func() {
+				pmu.Lock()
+				for _, p := range parked {
+					close(p.release)
+				}
+				pmu.Unlock()
+			}()
 			for _, tok := range f[1:] {
 				ret := ""
 				switch tok[0] {
@@ -114,7 +149,10 @@ func (c15) Exec(op string) string {
 				case 'h', 'u':
 					id, err := strconv.Atoi(tok[1:])
 					h, ok := t.objs[id]
-					if err != nil || !ok {
+					pmu.Lock()
+					_, busy := parked[h]
+					pmu.Unlock()
+					if err != nil || !ok || busy {
 						return "bad-op"
 					}
 					var r bool
@@ -124,10 +162,59 @@ func (c15) Exec(op string) string {
 						r = s.MarkHostUnhealthy(h)
 					}
 					ret = map[bool]string{true: "t", false: "f"}[r]
+				case 'H', 'U':
+					id, err := strconv.Atoi(tok[1:])
+					h, ok := t.objs[id]
+					pmu.Lock()
+					_, busy := parked[h]
+					pmu.Unlock()
+					if err != nil || !ok || busy {
+						return "bad-op"
+					}
+					p := &parkedMark{reached: make(chan struct{}), release: make(chan struct{}), result: make(chan bool, 1)}
+					pmu.Lock()
+					parked[h] = p
+					pmu.Unlock()
+					healthy := tok[0] == 'H'
+					go func() {
+						if healthy {
+							p.result <- s.MarkHostHealthy(h)
+						} else {
+							p.result <- s.MarkHostUnhealthy(h)
+						}
+					}()
+					select {
+					case <-p.reached:
+						ret = "c"
+					case r := <-p.result:
+						// the CAS failed: the call returned without reaching the lock
+						ret = map[bool]string{true: "t", false: "f"}[r]
+						pmu.Lock()
+						delete(parked, h)
+						pmu.Unlock()
+					}
+				case 'Y':
+					id, err := strconv.Atoi(tok[1:])
+					h, ok := t.objs[id]
+					pmu.Lock()
+					p := parked[h]
+					delete(parked, h)
+					pmu.Unlock()
+					if err != nil || !ok || p == nil {
+						return "bad-op"
+					}
+					close(p.release)
+					ret = map[bool]string{true: "t", false: "f"}[<-p.result]
 				default:
 					return "bad-op"
 				}
 				outs = append(outs, ret+t.healthy(s))
+			}
+			pmu.Lock()
+			left := len(parked)
+			pmu.Unlock()
+			if left != 0 {
+				return "bad-op" // a mark still parked at the end of the script
 			}
 			var rem []int
 			for id, h := range t.objs {
@@ -224,7 +311,33 @@ func (c15) genSets(r *hx.Run, count int) {
 		n := 1 + rng.Intn(10)
 		var toks []string
 		nontriv := false
+		// every third history has marks split in two halves with other operations in between
+		conc := i%3 == 2
+		inFlight := map[int]bool{}
+		var flightOrder []int
+		unhealthy := map[int]bool{} // the generator's own copy of the flags: a mark whose CAS fails is not parked
 		for j := 0; j < n; j++ {
+			if conc && len(known) > 0 && rng.Intn(3) == 0 {
+				if len(flightOrder) > 0 && rng.Intn(2) == 0 {
+					k := rng.Intn(len(flightOrder))
+					id := flightOrder[k]
+					flightOrder = append(flightOrder[:k], flightOrder[k+1:]...)
+					delete(inFlight, id)
+					toks = append(toks, fmt.Sprintf("Y%d", id))
+					continue
+				}
+				o := known[rng.Intn(len(known))]
+				if !inFlight[o.id] {
+					un := rng.Intn(2) == 1
+					toks = append(toks, fmt.Sprintf("%c%d", "HU"[map[bool]int{false: 0, true: 1}[un]], o.id))
+					if unhealthy[o.id] != un {
+						unhealthy[o.id] = un
+						inFlight[o.id] = true
+						flightOrder = append(flightOrder, o.id)
+					}
+					continue
+				}
+			}
 			pick := func(fresh bool) ob {
 				if !fresh && len(known) > 0 && rng.Intn(3) != 0 {
 					return known[rng.Intn(len(known))]
@@ -266,12 +379,25 @@ func (c15) genSets(r *hx.Run, count int) {
 					continue
 				}
 				o := known[rng.Intn(len(known))]
+				if inFlight[o.id] {
+					continue // one mark per object at a time (the monitor checks a host once per round)
+				}
 				if rng.Intn(2) == 0 {
 					toks = append(toks, fmt.Sprintf("u%d", o.id))
+					unhealthy[o.id] = true
 				} else {
 					toks = append(toks, fmt.Sprintf("h%d", o.id))
+					unhealthy[o.id] = false
 				}
 			}
+		}
+		for len(flightOrder) > 0 {
+			k := rng.Intn(len(flightOrder))
+			toks = append(toks, fmt.Sprintf("Y%d", flightOrder[k]))
+			flightOrder = append(flightOrder[:k], flightOrder[k+1:]...)
+		}
+		if len(toks) == 0 {
+			continue
 		}
 		seen := map[int]bool{}
 		for _, o := range known {
@@ -280,7 +406,11 @@ func (c15) genSets(r *hx.Run, count int) {
 			}
 			seen[o.addr*2+map[bool]int{true: 1, false: 0}[o.main]] = true
 		}
-		r.Do("c15.set "+strings.Join(toks, " "), nontriv || n >= 5, "set")
+		kind := "set"
+		if strings.ContainsAny(strings.Join(toks, " "), "HU") {
+			kind = "set-conc"
+		}
+		r.Do("c15.set "+strings.Join(toks, " "), nontriv || n >= 5, kind)
 	}
 }
 
